@@ -404,9 +404,22 @@ def to_py(v, as_np):
   return v
 
 
+# String view (case field `strv` = feature columns shown to the REAL code as strings): value v of such a column is
+# given to the pipeline as STRV[v], restricted values likewise (`scalar`: a one-value restriction is passed bare, the
+# way add_slice(dict(feature='en-US')) is written), and the slice values coming back are decoded to v again.  The
+# model and the textbook oracle keep the integers: slice features are compared by equality / membership only, and
+# STRV is injective.  Its entries are substrings of one another on purpose (seeded change C02-m7).
+STRV = ['', 'en', 'US', 'en-US', 'n-U', '-', 'zz', 'q']
+
+
+def _strv(case, key, v):
+  return STRV[v] if key in case.get('strv', ()) and isinstance(v, int) and 0 <= v < len(STRV) else v
+
+
 def build_batches(case):
   nps = set(case.get('np', ()))
-  return [{k: to_py(v, k in nps) for k, v in b.items()} for b in case['batches']]
+  sv = set(case.get('strv', ()))
+  return [{k: ([_strv(case, k, x) for x in v] if k in sv else to_py(v, k in nps)) for k, v in b.items()} for b in case['batches']]
 
 
 def build_transform(case, slicers=None, base=None):
@@ -430,7 +443,10 @@ def build_transform(case, slicers=None, base=None):
     if sl['kind'] == 'default':
       t = t.add_slice(keys, **kw) if sl['name'] == sl['keys'] else t.add_slice(keys, slice_name=name, **kw)
     elif sl['kind'] == 'within':
-      t = t.add_slice(dict(zip(sl['keys'], [tuple(w) for w in sl['within']])), **kw)
+      ws = [tuple(_strv(case, k, x) for x in w) for k, w in zip(sl['keys'], sl['within'])]
+      if sl.get('scalar'):
+        ws = [w[0] if len(w) == 1 else w for w in ws]
+      t = t.add_slice(dict(zip(sl['keys'], ws)), **kw)
     elif sl['kind'] == 'fn':
       t = t.add_slice(keys, slice_name=name, slice_fn=SLICE_FNS[sl['fn']], **kw)
     elif sl['kind'] == 'mask':
@@ -462,7 +478,8 @@ def canon_result(res):
     return [{'metric': '<SELF>', 'slice': None, 'value': canon_value(res)}]
   for k, v in res.items():
     if isinstance(k, transform.MetricKey):
-      sl = {'features': [str(f) for f in k.slice.features], 'values': [int(x) for x in k.slice.values]}
+      sl = {'features': [str(f) for f in k.slice.features],
+            'values': [STRV.index(x) if isinstance(x, str) and x in STRV else int(x) for x in k.slice.values]}
       out.append({'metric': str(k.metrics), 'slice': sl, 'value': canon_value(v)})
     else:
       out.append({'metric': str(k), 'slice': None, 'value': canon_value(v)})
@@ -1171,6 +1188,24 @@ def gen_systematic(rng):
         yield case
 
 
+def gen_strview():
+  """String-valued slice features through the real code (`strv`), with every way of writing a restriction; fixed cases
+  (own generator state, independent of the run's seed)."""
+  import random
+  rng = random.Random(20260930)
+  for kind, ins in [('sumcount', ['x']), ('counter', ['x']), ('mean', ['y'])]:
+    for sizes in [[4], [2, 3], [1, 0, 3], [3, 1, 3]]:
+      for w, scalar in [([3], True), ([3], False), ([1, 3], False), ([0], True), ([6], True), (None, False)]:
+        a = mk_agg(rng, kind, ins, 0)
+        sl = dict(kind='default', keys=['a'], name=['a']) if w is None else dict(kind='within', keys=['a'], name=['a'], within=[w])
+        if scalar:
+          sl['scalar'] = True
+        batches = gen_stream(rng, 'flat', sizes=sizes)
+        for b in batches:
+          b['a'] = [rng.choice([0, 1, 2, 3, 3, 4]) for _ in b['a']]
+        yield dict(aggs=[a], slicers=[sl], batches=batches, np=[], strv=['a'])
+
+
 def gen_fanout_dups(rng):
   """fan-out slice functions with repeated and missing emissions: batches with ONE distinct slice value in which some
   rows emit it several times and others emit nothing, in particular with #emissions == #rows"""
@@ -1601,6 +1636,7 @@ def gen_cases(ctx):
   yield from counted(ctx.corpus())
   yield from counted(gen_systematic(rng))
   yield from counted(gen_fanout_dups(rng))
+  yield from counted(gen_strview())
   yield from counted(gen_typed_matrix(rng))
   yield from counted(gen_carried(rng, 500 if ctx.quick else 12000))
   n = 1200 if ctx.quick else 30000
